@@ -43,7 +43,7 @@ prop(
     technique="reference-evaluator runtime monitor (admissible result sets) + panic supervisor over bounded-exhaustive and random expression trees, built twice (literal-folded and lazy) and used as select/update/delete conditions; overflow-checked build",
     rule="trees over the 18 operators + AND/OR and the 12-leaf battery: all depth-1 trees, depth-2 trees with one composite child "
          "(1/40 slice quick, all thorough), random trees to depth 6; each evaluated with literal leaves (constant folding) and with "
-         "column leaves (lazy) and a sample as WHERE of select/update/delete; distinct = distinct tree shape (operators + leaf value classes); "
+         "column leaves (lazy) and a sample as WHERE of select/update/delete and as ON of an inner and a left join; distinct = distinct tree shape (operators + leaf value classes); "
          "non-trivial = both constructions were executed and compared with the reference set",
     level_text="Runs the real Expr constructors/eval and the query executor on every small tree and a large random sample in the "
                "overflow-checking build (where the arithmetic defects are panics) and in release; results are judged against a reference "
@@ -73,7 +73,8 @@ prop(
     "C18",
     title="Creation times convert to and from Windows timestamps without drift",
     technique="law-checking runtime monitor (drift < 100 ns, idempotence, monotonicity, saturation) through Package::summary_info_mut(), with a save+reopen sample",
-    rule="every tick within +-300 ticks of 1601-01-01, 1970-01-01 and tick 2^64-1 with sub-tick ns 0..199; platform SystemTime extremes; "
+    rule="every tick within +-300 ticks of 1601-01-01, 1970-01-01 and tick 2^64-1 with sub-tick ns 0..199, and of +-(2^64-1) ticks from 1970 (must saturate); platform SystemTime extremes; save+reopen with 1,800 comment lengths that move "
+         "the stored time across the 4/8/16 KiB boundaries of the summary stream; "
          "uniform / log-uniform / clustered / modern random times sorted in blocks of 256; distinct = (class, magnitude bucket, sub-tick residue, tick mod 8)",
     level_text="Millions of set/get executions on a live package with exact integer (i128 ns) oracles for the four laws; 1 in 4096 values also goes "
                "through flush + reopen.",
@@ -88,7 +89,7 @@ prop(
     title="Printed queries mean what the query objects mean",
     technique="print -> independent precedence parser -> re-evaluation on a row battery (runtime differential monitor on to_string()); every parent/child operator pair enumerated",
     rule="every (parent operator, child operator, side) triple over all 20 operators with column/literal leaves; depth-3 chains (one operator per "
-         "precedence level quick, all thorough); random trees to depth 6; random SELECT/INSERT/UPDATE/DELETE with nested joins; distinct = "
+         "precedence level quick, all thorough); random trees to depth 6; random SELECT/INSERT/UPDATE/DELETE with nested joins, conditions built by one or by two with() calls; distinct = "
          "three-level operator shape resp. statement shape; non-trivial = text was produced, parsed and compared",
     level_text="Each printed text is re-read with the ladder the property states and compared with the object by evaluating both on all "
                "value combinations (10 values per column, up to 3 columns exhaustively); violations are minimised to the culprit operator pair.",
@@ -171,7 +172,8 @@ prop(
     rule="random states (3-14 valid operations, optional reopen) x invalid-call families: name checks, column-list checks, LATE create_table failures (33-64 char column "
          "names, 33-60 char table names, enum sets over 255 chars, bad foreign keys, ranges with i32::MIN, unrepresentable widths), drop/insert/update/delete/select/stream "
          "calls with unknown/invalid/reserved names, wrong arity, invalid value in first/last batch row, duplicate keys vs existing rows and within the batch, key-collision "
-         "updates; each family also in isolation on fresh states; distinct = (family, table count, row-count class); non-trivial = the call returned Err and all three comparisons ran",
+         "updates; each family also in isolation on fresh states; refused calls at the capacity limits (65,537th row carrying a new string, 65,536th pool entry via insert/update, "
+         "create_table whose catalog rows need one string more than the 3 free entries) incl. string accounting of the saved file; distinct = (family, table count, row-count class); non-trivial = the call returned Err and all three comparisons ran",
     level_text="The monitor only binds calls that actually returned Err; for those it compares the complete API snapshot, the snapshot after flush+reopen, and the "
                "independent decoder's string accounting (no pool entry, catalog row or text of the rejected call may exist).",
     level_note="A call the generator meant to be invalid but the library accepts is counted (unexpected_ok) and left to C06/C07.",
@@ -232,7 +234,7 @@ prop(
     rule="all names of length <= 2 (quick, plus 1/5 of length 3) / <= 3 (thorough) over a 20-character alphabet (packable, unpackable ASCII/non-ASCII, packing-range "
          "characters U+3800/3FFF/4800/483F, table marker, path separators, reserved characters, control characters), each batched with the name its packed form unpacks to; "
          "packable names of every length 1..66; special names (pool, catalog, user table, summary, signatures, with and without the table marker, '.', '..', 'a/b'); contents 0..70,000 "
-         "bytes; write/overwrite/remove histories interleaved with table operations and reopen; distinct = (name class, length in chars, length in UTF-16 units) resp. history log",
+         "bytes; write/overwrite/remove histories interleaved with table operations (incl. tables and streams sharing a name, create_table, drop_table) and reopen; distinct = (name class, length in chars, length in UTF-16 units) resp. history log",
     level_text="After every accepted write all live streams must be listed exactly as given and read back their own bytes; table, pool, summary and signature entries are "
                "compared byte for byte before/after via the independent decoder; every call runs under the panic supervisor.",
     level_note="Distinct names whose stored forms are equal under the container's case-insensitive comparison are an ambiguous group and are excluded (counted).",
@@ -245,8 +247,8 @@ prop(
     "C12",
     title="Joins and projections produce the documented row combinations",
     technique="query-tree reference-model runtime monitor (nested-loop semantics, documented column naming) on all small table contents, under the panic supervisor",
-    rule="every select tree of depth <= 1 (5 leaf forms incl. filtered / projected / self-join operands x 10 join conditions incl. two naming an unknown column x inner/left x 6 "
-         "top-level forms), depth-2 trees by stride, random depth-3 trees; on 64 (quick) / all 256 (thorough) content pairs of A(K,V), B(K,R) with keys in {1,2} and values in "
+    rule="every select tree of depth <= 1 (6 leaf forms incl. filtered / projected / identity-projected / self-join operands, a column name containing a period, x 10 join conditions incl. two naming an unknown column x inner/left x 6 "
+         "top-level forms), depth-2 trees by stride, random depth-3 trees; on 64 (quick) / all 256 (thorough) content pairs of A(K,V), B(K,R.x) with keys in {1,2} and values in "
          "{absent, null, 1, 2}; distinct = (tree, contents); non-trivial = the model's answer has rows or is an error",
     level_text="Column names, rows, row order, Rows::len and Ok/Err of select_rows are compared with the model for every tree and content pair.",
     level_note="A projected sub-select is anonymous (no table. prefix), a filtered base table keeps its name: the model follows the library's reading of 'named table'.",
@@ -260,7 +262,7 @@ prop(
     title="Independently encoded MSI databases are read exactly",
     technique="translation round trip through two independent implementations at run time: Obs(open(encode(db))) vs the independent decoder's view, then decode(save(apply(ops))) vs the reference model",
     rule="format-level generator: 0-6 tables x 1-32 columns of any type mix, unique keys, values valid for the schema, x option vectors (3-byte references, pool holes, "
-         "duplicate entries, over-counted refcounts, 70 KB pool string, 66 KB cell string, code-page id 0 / any of the 26 pages, 1-byte integer size field, no _Validation, "
+         "duplicate entries, over-counted refcounts, pool / cell strings of 65,534 / 65,535 / 65,536 / 66,000 / 70,000 bytes, summary code-page property 0 or absent, code-page id 0 / any of the 26 pages, 1-byte integer size field, no _Validation, "
          "unsorted rows, 32 columns, property sets with shuffled value/table order, gaps, padding, all 7 value types); one directed scenario family per option + random "
          "combinations; then 2-6 API changes on one table / streams / summary; distinct = (option set, table count, row-count class); non-trivial = the file opened and both legs ran",
     level_text="Leg 1 compares everything the public API reports (type, code page, tables, column definitions, rows in file order, summary, streams) with the expectation "
@@ -292,9 +294,10 @@ prop(
     title="A successful flush means the data reached the medium, even when writes fail",
     level="fault_enumeration",
     technique="fault-injecting instrumented medium: every write/read/seek/flush call index of 11 operation scripts failed once (transient) and from then on (persistent); panic supervisor; reopen oracle whenever every call incl. the final flush/into_inner returned Ok",
-    rule="11 scripts (create+insert, update+delete, drop table, 70 KB stream, summary change, code-page change, 70 KB string, reopen-then-modify, 600-row batch, two tables "
-         "sharing strings, Package::create itself) first run fault-free to count their I/O calls, then re-run once per (call kind, index k, transient|persistent); quick: write "
-         "indices at stride 1 (5 for >1500-write scripts, 37 for Package::create), reads/seeks at stride 3; thorough: every index; distinct = (script, fault kind, persistence, "
+    rule="18 scripts (create+insert, update+delete, drop table, 70 KB stream, summary change, code-page change, 70 KB string, reopen-then-modify, 600-row batch, two tables "
+         "sharing strings, removal of a directory entry with two children (table / stream), four scripts with the fault plan armed BEFORE Package::open (then summary edit / insert / "
+         "insert with a 2,600-entry pool / read everything), read-everything under armed faults, Package::create itself) first run fault-free to count their I/O calls, then re-run once per (call kind, index k, transient|persistent); quick: write "
+         "indices at stride 1 (5 for >1500-write scripts, 37 for Package::create), reads/seeks at stride 3 (stride 1 for the open-under-faults and read-back scripts); thorough: every index; a read that returns Ok under a fault must return the file's content; distinct = (script, fault kind, persistence, "
          "fault site = innermost msi:: / cfb:: frames at injection); non-trivial = the armed fault actually fired",
     level_text="Complete enumeration of single fault points over the scripts' I/O traces. A run in which some call returned Err carries no state obligation (only 'no panic'); "
                "a run in which everything returned Ok must reopen to the fault-free result.",
@@ -310,7 +313,7 @@ prop(
     technique="boundary runtime monitor: panic supervisor + 'Err changed nothing' snapshot + 'Ok reopens identically' close-point check at L-1, L, L+1 of every capacity limit, approached in three ways",
     rule="limits: 32 columns; 65,536 rows per table; 65,535 string-pool entries with two-byte references; 31 UTF-16 units of stored stream/table name; 32/64-character catalog "
          "widths for table and column names; each approached (a) in one batch, (b) incrementally over several calls with reopen in between, (c) again after deletions freed "
-         "capacity; distinct = (limit, approach, step); non-trivial = the boundary step executed and all three oracles ran",
+         "capacity, (d) create_table at a nearly full pool; a refused step must also leave the saved file's string accounting intact; distinct = (limit, approach, step); non-trivial = the boundary step executed and all three oracles ran",
     level_text="Directed boundary scenarios on the real library: every step that must succeed is required to succeed and to reopen identically, every step beyond a limit must "
                "return Err, leave live and reopened state unchanged, and never panic or save a file the library then refuses.",
     level_note="The pool limit is located dynamically (entries counted by the independent decoder). Panics are catchable here, so no worker subprocess is needed.",
@@ -326,7 +329,7 @@ prop(
     rule="inputs = 24 seed packages (library histories + one encoded database per encoder option) x mutators: any catalog/user cell := null / dangling / huge reference / "
          "extreme number; table streams truncated / extended / removed / emptied; pool header and entries (unknown code page, flipped reference width, lengths beyond the "
          "data, zero refcount with text, long-string escapes, under/over-counts); property sets (BOM, version, OS, section/property offsets, counts, lengths, types, duplicate "
-         "ids, code-page property type); root class id; byte substitutions, bit flips, truncation, splices, random bytes. Each input: open, describe, select + iterate every "
+         "ids, code-page property type, string properties := adversarial texts); streams stored under names the library never writes (U+4840 inside, 31 units, control characters); root class id; byte substitutions, bit flips, truncation, splices, random bytes. Each input: open, describe, select + iterate every "
          "table, joins, summary getters, list/read streams, then update/insert/delete on every table, create/drop table, stream calls, summary setters, flush. distinct = "
          "(mutation class, mutation kind, opened?, number of API calls reached)",
     level_text="Every input is executed in an isolated worker process under a panic hook with backtrace attribution; process death and (re-confirmed) hangs are attributed to "
